@@ -127,16 +127,16 @@ def driver(case, api):
     ctx = api.new_context(time_limit=T, memory_limit=(case["m"] or None))
     if case["loop"] in CARRY:
         first, src = CARRY[case["loop"]]
-        pre = api.run(lambda: ctx.eval(first), wall=120.0, cap=3_000_000, tick=1.0, deadline=T)
+        pre = api.run(lambda: ctx.eval(first), wall=40.0, cap=3_000_000, tick=1.0, deadline=T)
         api.vclock.now += 3 * T          # virtual time passes between the two evaluations
         start = api.vclock.now
-        out = api.run(lambda: ctx.eval(src), wall=120.0, cap=int(T) + 3_000_000, tick=1.0, deadline=start + T, keep_clock=True)
+        out = api.run(lambda: ctx.eval(src), wall=40.0, cap=int(T) + 3_000_000, tick=1.0, deadline=start + T, keep_clock=True)
         if pre["o"] != "value":
             out = {"o": "host", "type": "PreludeFailed", "where": pre["o"], "steps": 0}
     else:
         src = render(case)
         # virtual clock: one tick per hooked step; the deadline passes after T ticks
-        out = api.run(lambda: ctx.eval(src), wall=120.0, cap=int(T) + 3_000_000, tick=1.0, deadline=T)
+        out = api.run(lambda: ctx.eval(src), wall=40.0, cap=int(T) + 3_000_000, tick=1.0, deadline=T)
     late = dict(api.steps.late)
     res = {"id": case["id"], "finite": bool(case["finite"]), "o": out["o"], "steps": out["steps"], "t": case["t"],
            "lateV": late["main"] + late["cb"], "lateR": late["re"] + late["la"] + late["lb"],
